@@ -10,7 +10,16 @@ from lib import common, play, stories
 
 LEVEL = "proof"
 THEOREM_MODULES = ["Proofs.C07"]
-REQUIRED_THEOREMS = []
+REQUIRED_THEOREMS = [
+    "Ink.C07.int_add", "Ink.C07.int_sub", "Ink.C07.int_mul", "Ink.C07.int_div", "Ink.C07.int_mod",
+    "Ink.C07.int_div_mod_law", "Ink.C07.int_compare", "Ink.C07.int_min_max", "Ink.C07.int_float_coercion",
+    "Ink.C07.bool_int_coercion", "Ink.C07.string_concat", "Ink.C07.scalar_string_concat", "Ink.C07.string_has",
+    "Ink.C07.list_union", "Ink.C07.list_difference", "Ink.C07.list_intersection", "Ink.C07.list_has",
+    "Ink.C07.list_count", "Ink.C07.list_max_is_greatest", "Ink.C07.list_min_is_least", "Ink.C07.list_display_sorted",
+    "Ink.C07.call_order_independent", "Ink.C07.order_independent", "Ink.C07.eval_wellformed",
+    "Ink.Expr.eval_order_independent", "Ink.Native.call_equiv", "Ink.union_perm", "Ink.ordered_perm",
+    "Ink.maxItem_perm", "Ink.increment_perm",
+]
 RULE = ("a case = one expression tree (typed random trees up to depth 4 over int / exactly representable float / "
         "bool / string literals and variables and over list values from four LIST declarations with equal values "
         "across lists, empty lists with and without known origins; plus every unary and binary operator over a "
